@@ -132,10 +132,15 @@ def _c02_pre(keep):
             "--generate-function-body-options", "nondet-return"]
 
 
+_C02_TREEFN = {"html": "mmd_export_token_tree_html", "latex": "mmd_export_token_tree_latex", "opendocument": "mmd_export_token_tree_opendocument"}
+
+
 def _c02_unit(name, short, fn, files, keep, types, tier, note=None):
-    U(name, ["C02"], "h_dispatch", ["C02/dispatch.c"], files, lib=(), kind="finite", tier=tier,
-      defines=["-DI18N_DISABLED=1", "-DC02_WRITER=" + fn, "-DC02_TLIST(X)=" + " ".join("X(%s)" % t for t in types)],
-      pre_instrument=_c02_pre(keep), checks=["--no-standard-checks"],
+    _tree = _C02_TREEFN.get(short)
+    U(name, (["C02", "C07"] if _tree else ["C02"]), "h_dispatch", ["C02/dispatch.c"], files, lib=(), kind="finite", tier=tier,
+      drop_bodies=([_tree] if _tree else []),
+      defines=["-DI18N_DISABLED=1", "-DC02_WRITER=" + fn, "-DC02_TLIST(X)=" + " ".join("X(%s)" % t for t in types)] + (["-DC02_TREE=" + _tree] if _tree else []),
+      pre_instrument=_c02_pre(keep + ([_tree] if _tree else [])), checks=["--no-standard-checks"],
       cbmc_flags=["--object-bits", "14", "--unwind", "4", "--unwinding-assertions"],
       functions=keep, min_obligations=3 * len(types), timeout=600, cost=len(types) + (200 if short == "beamer" else 0),
       bounds={"cases (token types, each with a constant t->type)": len(types), "tree": "one token + 3 leaf children"},
